@@ -426,6 +426,14 @@ func (w *Worker) step(st *State) {
 	st.Fuel--
 	w.Steps++
 	if st.Fuel < 0 {
+		if w.Job != nil && w.Job.DepthIsViolation {
+			// for totality checks "returns in bounded time" is part of the property:
+			// running out of the (generous) step budget is a violation candidate
+			st.recordViolation("unbounded-time", fmt.Sprintf("more than %d interpreter steps on one path", w.FuelPerPath))
+			st.frames = nil
+			st.Status = PathDone
+			panic(endReq{})
+		}
 		st.abort("fuel exhausted (unwinding bound)")
 	}
 	blk := fr.fi.fn.Blocks[fr.block]
